@@ -51,8 +51,10 @@ def run(ctx):
     for a in pool:
         ctxs = [('', '$(', ')', ''), ('x', '$(', ')', 'y'), ('c "', '$(', ')', '"'), ('v=', '$(', ')', ''), ('c >', '$(', ')', ''), ('c ', '<(', ')', ''),
                 ('c ', '>(', ')', ' d'), ('c pre', '<(', ')', ''), ('c --x=', '>(', ')', 'y'), ('v=', '<(', ')', ''), ('c a.b', '$(', ')', '/d'), ('c $(d ', '$(', ')', ')'), ('c "$(d "', '$(', ')', '")"'), ('e\nc ', '$(', ')', ''), ('c $(d $(e ', '$(', ')', '))')]
+        # next to / after a ${...} whose operand holds a bare '{': the parameter expansion ends at the FIRST '}' (only '${' nests)
+        ctxs += [('c ${a:-{}', '$(', ')', '}'), ('c "${a:-{}', '$(', ')', '}"'), ('c ${a/{/x}', '<(', ')', '}'), ('c ${v}', '$(', ')', '${w}'), ('c ${v:-{x}', '$(', ')', '')]
         if '`' not in a and '\\' not in a: ctxs += [('c ', '`', '`', ''), ('c "', '`', '`', '"')]
-        if quick: ctxs = rng.sample(ctxs, 4)
+        if quick: ctxs = rng.sample(ctxs, 5)
         for pre, op, cl, post in ctxs:
             s, oa, ba = emb(pre, op, a, cl, post)
             cases.append(('C07', [oa, ba], s, [('parse', {}, a), ('parse', {}, s)], a))
